@@ -698,6 +698,27 @@ func dimCutRoots(m *Model) map[*ssa.Function]string {
 	return out
 }
 
+// isDefaultsConstructor: a function of the root package without parameters or receiver whose body is a single return of
+// the options record, the output record or the parameter record (graph.Params) - the functional spelling of the
+// package-level defaults literal.
+func isDefaultsConstructor(f *ssa.Function, fd *ast.FuncDecl) bool {
+	if pkgPathOf(f) != modPath || fd.Recv != nil || fd.Type.Params.NumFields() != 0 || len(fd.Body.List) != 1 {
+		return false
+	}
+	if _, ok := fd.Body.List[0].(*ast.ReturnStmt); !ok {
+		return false
+	}
+	res := f.Signature.Results()
+	if res.Len() != 1 {
+		return false
+	}
+	switch namedKey(res.At(0).Type()) {
+	case "autog.options", "autog.output", "internal/graph.Params":
+		return true
+	}
+	return false
+}
+
 func runDim1(m *Model, r *RuleResult) {
 	cuts := dimCutRoots(m)
 	if len(cuts) != 3 {
@@ -792,6 +813,11 @@ func runDim1(m *Model, r *RuleResult) {
 			continue
 		}
 		seenDecl[fd] = true
+		if isDefaultsConstructor(t, fd) {
+			// the documented defaults are stated in the caller's unit, exactly like the package-level literal they replace
+			r.Notes = append(r.Notes, "defaults constructor, not analysed (its constants are the documented defaults): "+funcKey(t))
+			continue
+		}
 		units = append(units, unit{t, fd})
 	}
 	sort.Slice(units, func(i, j int) bool { return funcKey(units[i].f) < funcKey(units[j].f) })
